@@ -1167,50 +1167,90 @@ func init() {
 func ruleC02R7(c *Ctx) {
 	a := c.Idx()
 	n := 0
-	for _, fn := range c.FuncsIn(pkgIndex) {
-		ei := fnErrIdx(fn)
-		if ei < 0 || fn.Parent() != nil {
-			continue
+	// committers: functions with an error result that call Commit, or call such a function
+	// (a caller of a committer is a committer too: a failure after the callee succeeded has the
+	// same effect as a failure after Commit itself)
+	committers := map[*ssa.Function]bool{}
+	for changed := true; changed; {
+		changed = false
+		for _, fn := range c.FuncsIn(pkgIndex) {
+			if committers[fn] || fnErrIdx(fn) < 0 || fn.Parent() != nil {
+				continue
+			}
+			eachInstr(fn, func(in ssa.Instruction) {
+				cc := callOf(in)
+				if cc == nil {
+					return
+				}
+				if callsIfaceMethod(cc, a.DPCommit) {
+					committers[fn] = true
+				} else if cal := staticCallee(cc); cal != nil && committers[cal] {
+					if _, isCall := in.(*ssa.Call); isCall {
+						committers[fn] = true
+					}
+				}
+			})
+			if committers[fn] {
+				changed = true
+			}
 		}
-		var commits []ssa.Instruction
+	}
+	roots, _ := persisterRoots(c.Program)
+	fromPersister := c.Light().Reach(roots...)
+	const fCommitted uint64 = 1
+	directIn := func(fn *ssa.Function) []ssa.Instruction {
+		var rv []ssa.Instruction
 		eachInstr(fn, func(in ssa.Instruction) {
 			if cc := callOf(in); cc != nil && callsIfaceMethod(cc, a.DPCommit) {
-				commits = append(commits, in)
+				rv = append(rv, in)
 			}
 		})
-		if len(commits) == 0 {
-			continue
+		return rv
+	}
+	sm := &Summarizer{}
+	sm.OnInstr = func(fn *ssa.Function, in ssa.Instruction, st *PState) bool {
+		if cc := callOf(in); cc != nil && callsIfaceMethod(cc, a.DPCommit) {
+			st.Flags |= fCommitted
 		}
-		n++
-		key := "commit is the last fallible step in " + FuncName(fn)
-		const fCommitted uint64 = 1
-		var problems []string
-		ex := &Explorer{Fn: fn}
-		ex.OnInstr = func(in ssa.Instruction, st *PState) bool {
-			for _, cm := range commits {
-				if in == cm {
-					st.Flags |= fCommitted
-				}
-			}
-			return true
-		}
-		ex.OnEdge = func(from, to *ssa.BasicBlock, st *PState) {
-			// a loop that commits one item per round (loading all snapshots at open): each round is its own
-			if h := enclosingLoopHeader(commits[0].Block()); h != nil && to == h && naturalLoop(h)[from] {
+		return true
+	}
+	sm.OnEdge = func(from, to *ssa.BasicBlock, st *PState) {
+		// a loop that commits one item per round (loading all snapshots at open): each round is its own
+		for _, cm := range directIn(from.Parent()) {
+			if h := enclosingLoopHeader(cm.Block()); h != nil && to == h && naturalLoop(h)[from] {
 				st.Flags &^= fCommitted
 			}
 		}
-		ex.OnReturn = func(r *ssa.Return, st *PState) {
-			if st.Flags&fCommitted != 0 && ei < len(r.Results) && st.Eval(r.Results[ei]) != TriNo {
-				problems = append(problems, "a path that already committed the snapshot returns a possibly non-nil error at "+c.Pos(r.Pos())+": the round is retried and commits the same epoch again (the deletion policy then counts it twice and removes it while it is the newest)")
-			}
-		}
-		ex.Run()
-		if ex.Exceeded {
-			c.Undecided(key, c.Pos(fn.Pos()), "path exploration did not finish")
+	}
+	for _, fn := range c.FuncsIn(pkgIndex) {
+		ei := fnErrIdx(fn)
+		if ei < 0 || fn.Parent() != nil || !committers[fn] {
 			continue
 		}
-		c.Check(len(problems) == 0, key, c.Pos(commits[0].Pos()), "every path through Commit ends in a nil error", uniqJoin(problems))
+		direct := directIn(fn)
+		if len(direct) == 0 && !fromPersister[fn] {
+			continue // a caller outside the persist round: its failure is not retried with the same epoch
+		}
+		n++
+		key := "commit is the last fallible step in " + FuncName(fn)
+		outs := sm.Summary(fn)
+		if sm.Exceeded || len(outs) == 0 {
+			c.Undecided(key, c.Pos(fn.Pos()), "path exploration did not finish")
+			sm.Exceeded = false
+			continue
+		}
+		bad := 0
+		for _, o := range outs {
+			if o.Flags&fCommitted != 0 && ei < len(o.Results) && o.Results[ei] != TriNo {
+				bad++
+			}
+		}
+		pos := c.Pos(fn.Pos())
+		if len(direct) > 0 {
+			pos = c.Pos(direct[0].Pos())
+		}
+		c.Check(bad == 0, key, pos, "every path through Commit (directly or in a callee) ends in a nil error",
+			"a path that already committed the snapshot (itself or in a callee) returns a possibly non-nil error: the round is retried and commits the same epoch again (the deletion policy then counts it twice and removes it while it is the newest)")
 	}
 }
 
